@@ -661,13 +661,16 @@ Qed.
 (* a Flush after the header went out changes nothing: the compressor is not flushed *)
 Lemma inv3_fl c acc y : Inv3 c acc y -> step OFl y = Done y.
 Proof.
-  intros (I1 & I2 & I3 & I4 & I5). cbn [step]. unfold b_fl.
-  assert (Hc : b_active y && b_wrote y && negb (b_stream y) = false).
-  { destruct I4 as [I4 | [I4 I4']]; [rewrite I4; reflexivity | rewrite I4'; cbn [negb]; rewrite andb_false_r; reflexivity]. }
-  rewrite Hc. unfold g_fl, c_fl.
-  destruct (gz_on y).
-  - destruct I5 as (G1 & _). rewrite G1. cbn [bnd]. rewrite I1. reflexivity.
-  - rewrite I1. reflexivity.
+  intros (I1 & I2 & I3 & I4 & I5). cbn [step].
+  assert (Hg : g_fl y = Done y).
+  { unfold g_fl, c_fl. destruct (gz_on y).
+    - destruct I5 as (G1 & _). rewrite G1. cbn [bnd]. rewrite I1. reflexivity.
+    - rewrite I1. reflexivity. }
+  assert (Hh : h_fl y = Done y).
+  { unfold h_fl. destruct (h_on y); [|exact Hg]. rewrite (I3 eq_refl). cbn [bnd]. exact Hg. }
+  unfold b_fl.
+  destruct I4 as [I4 | [I4 I4']]; [rewrite I4; exact Hh|].
+  rewrite I4. cbn [bnd]. rewrite I4'. destruct (b_active y); exact Hh.
 Qed.
 
 Lemma inv3_wops c ws : bodyless c = false -> forall acc y, Inv3 c acc y ->
@@ -800,7 +803,7 @@ Proof.
       * destruct y. first [reflexivity | exact Ha].
       * destruct y. first [reflexivity | exact Hw].
       * destruct y. first [reflexivity | exact Hst].
-    + cbn [map wop_op run_script step]. unfold b_fl. rewrite Ha, Hw, Hst. cbn [andb negb bnd].
+    + cbn [map wop_op run_script step]. unfold b_fl. rewrite Ha, Hw. cbn [bnd]. rewrite Hst. cbn [bnd].
       rewrite (IH y Ha Hw Hst). unfold wbody. cbn [map wop_bytes concat app]. reflexivity.
 Qed.
 
@@ -887,4 +890,210 @@ Proof.
   destruct Hscript as (r & e & y & Hy & R & A).
   pose proof (errors_pass et (eff_path c path) (eff_errors c) _ _ r e y Hy R) as He.
   exact (outer_passes et (c_log c) act hd _ r e y s _ He R A).
+Qed.
+
+(* ---------- the full statement for written responses ---------- *)
+Lemma written_response_unaltered et c path ae sets s ws ret err :
+  forallb set_ok sets = true -> status_rule c path = None ->
+  valid_code s = true -> bodyless s = false -> ret < 400 ->
+  (should_buffer (tmode_of c path) (hs_fun sets []) = true -> ret < 300 -> err = false ->
+   contains (wbody ws) TPL_OPEN = false) ->
+  let x := serve et c path ae (sets ++ OWh s :: map wop_op ws) ret err in
+  cm x = Some s /\ sup x = 0%nat /\ view x = (false, wbody ws).
+Proof.
+  intros Hs Hr Hv Hb Hret Htpl.
+  destruct (should_buffer (tmode_of c path) (hs_fun sets [])) eqn:A.
+  - exact (written_buffered et c path ae sets s ws ret err Hs Hr Hv Hb Hret A (Htpl eq_refl)).
+  - exact (written_streamed et c path ae sets s ws ret err Hs Hr Hv Hb Hret A).
+Qed.
+
+(* ---------- a handler that writes or flushes without calling WriteHeader ---------- *)
+(* the fields of the outer wrappers are not touched by the inner writers *)
+Definition same_hb (x y : st) : Prop :=
+  h_on y = h_on x /\ h_wrote y = h_wrote x /\ b_mode y = b_mode x /\ b_wrote y = b_wrote x /\ b_stream y = b_stream x.
+Definition same_b (x y : st) : Prop :=
+  b_mode y = b_mode x /\ b_wrote y = b_wrote x /\ b_stream y = b_stream x.
+
+Lemma c_wh_hb s x : same_hb x (out_st (c_wh s x)) /\ gz_on (out_st (c_wh s x)) = gz_on x /\ gz_fw (out_st (c_wh s x)) = gz_fw x.
+Proof.
+  unfold c_wh. destruct (cm x); [|destruct (valid_code s)]; destruct x; cbn; unfold same_hb; cbn; auto 10.
+Qed.
+Lemma gzh_wh_hb s x : same_hb x (out_st (gzh_wh s x)) /\ gz_on (out_st (gzh_wh s x)) = gz_on x /\ gz_fw (out_st (gzh_wh s x)) = gz_fw x.
+Proof.
+  unfold gzh_wh. 
+  destruct (c_wh_hb s (set_chdr x (hset (hdel (chdr x) K_CL) K_CE V_GZIP))) as (A & B & C).
+  destruct (c_wh s (set_chdr x (hset (hdel (chdr x) K_CL) K_CE V_GZIP))) as [y|y]; cbn [bnd out_st] in *;
+  destruct x, y; unfold same_hb in *; cbn in *; auto 10.
+Qed.
+Lemma g_wh_hb s x : same_hb x (out_st (g_wh s x)).
+Proof.
+  unfold g_wh. destruct (gz_on x) eqn:G.
+  - destruct (gz_fw x).
+    + destruct (gz_comp x); [apply gzh_wh_hb | apply c_wh_hb].
+    + match goal with |- context [bnd (if ?c then gzh_wh s ?x1 else c_wh s ?x1) ?f] =>
+        set (X1 := x1);
+        assert (A : same_hb x (out_st (if c then gzh_wh s X1 else c_wh s X1)))
+          by (destruct c; [destruct (gzh_wh_hb s X1) as (A & _) | destruct (c_wh_hb s X1) as (A & _)];
+              destruct x; exact A);
+        destruct (if c then gzh_wh s X1 else c_wh s X1) as [y|y] end; cbn [bnd out_st] in *;
+      destruct x, y; unfold same_hb in *; cbn in *; auto 10.
+  - apply c_wh_hb.
+Qed.
+Lemma g_wh_fw s x : gz_on x = true -> forall y, g_wh s x = Done y -> gz_on y = true /\ gz_fw y = true.
+Proof.
+  intros G y. unfold g_wh. rewrite G. destruct (gz_fw x) eqn:Fw.
+  - destruct (gz_comp x); intro E.
+    + destruct (gzh_wh_hb s x) as (_ & B & C). rewrite E in B, C. cbn in B, C. split; congruence.
+    + destruct (c_wh_hb s x) as (_ & B & C). rewrite E in B, C. cbn in B, C. split; congruence.
+  - match goal with |- context [bnd (if ?c then gzh_wh s ?x1 else c_wh s ?x1) ?f] =>
+        set (X1 := x1);
+        assert (A : gz_on (out_st (if c then gzh_wh s X1 else c_wh s X1)) = true)
+          by (destruct c; [destruct (gzh_wh_hb s X1) as (_ & A & _) | destruct (c_wh_hb s X1) as (_ & A & _)];
+              rewrite A; destruct x; reflexivity);
+        destruct (if c then gzh_wh s X1 else c_wh s X1) as [z|z] end; cbn [bnd out_st] in *; [|discriminate].
+    intro E. injection E as <-. destruct z; cbn in *. auto.
+Qed.
+
+(* ---------- a first Write or Flush commits like WriteHeader(200), at every level ---------- *)
+Lemma c_implicit x : cm x = None ->
+  (forall g, c_wr g x = bnd (c_wh 200 x) (c_wr g)) /\ c_fl x = bnd (c_wh 200 x) c_fl.
+Proof.
+  intro H. unfold c_wr, c_fl, c_wh. rewrite H. rewrite valid_200. cbn [bnd]. split; reflexivity.
+Qed.
+
+Lemma bnd_ext (o : out) (f g : st -> out) : (forall y, o = Done y -> f y = g y) -> bnd o f = bnd o g.
+Proof. intro H. destruct o as [y|y]; [exact (H y eq_refl) | reflexivity]. Qed.
+
+Lemma g_implicit x : (gz_on x = true -> gz_fw x = false) -> (gz_on x = false -> cm x = None) ->
+  (forall b, g_wr b x = bnd (g_wh 200 x) (g_wr b)) /\ g_fl x = bnd (g_wh 200 x) g_fl.
+Proof.
+  intros H1 H2. destruct (gz_on x) eqn:G.
+  - specialize (H1 eq_refl). split; [intro b|].
+    + unfold g_wr at 1. rewrite G, H1. apply bnd_ext. intros y E.
+      destruct (g_wh_fw 200 x G y E) as [Gy Fy]. unfold g_wr. rewrite Gy, Fy. reflexivity.
+    + unfold g_fl at 1. rewrite G, H1. apply bnd_ext. intros y E.
+      destruct (g_wh_fw 200 x G y E) as [Gy Fy]. unfold g_fl. rewrite Gy, Fy. reflexivity.
+  - specialize (H2 eq_refl). destruct (c_implicit x H2) as [A B].
+    assert (Gw : g_wh 200 x = c_wh 200 x) by (unfold g_wh; rewrite G; reflexivity).
+    assert (Gy : forall y, c_wh 200 x = Done y -> gz_on y = false).
+    { intros y E. destruct (c_wh_hb 200 x) as (_ & P & _). rewrite E in P. cbn in P. congruence. }
+    split; [intro b|].
+    + unfold g_wr at 1. rewrite G, Gw, A. apply bnd_ext. intros y E. unfold g_wr. rewrite (Gy y E). reflexivity.
+    + unfold g_fl at 1. rewrite G, Gw, B. apply bnd_ext. intros y E. unfold g_fl. rewrite (Gy y E). reflexivity.
+Qed.
+
+Lemma h_implicit x : (h_on x = true -> h_wrote x = false) ->
+  (gz_on x = true -> gz_fw x = false) -> (gz_on x = false -> cm x = None) ->
+  (forall b, h_wr b x = bnd (h_wh 200 x) (h_wr b)) /\ h_fl x = bnd (h_wh 200 x) h_fl.
+Proof.
+  intros H0 H1 H2. destruct (h_on x) eqn:Hon.
+  - specialize (H0 eq_refl).
+    assert (Hy : forall y, h_wh 200 x = Done y -> h_on y = true /\ h_wrote y = true).
+    { intros y E. unfold h_wh in E. rewrite Hon, H0 in E.
+      match type of E with g_wh 200 ?X = _ => destruct (g_wh_hb 200 X) as (P & Q & _) end.
+      rewrite E in P, Q. cbn [out_st] in P, Q. destruct x; cbn in *. auto. }
+    split; [intro b|].
+    + unfold h_wr at 1. rewrite Hon, H0. apply bnd_ext. intros y E. destruct (Hy y E) as [P Q].
+      unfold h_wr. rewrite P, Q. reflexivity.
+    + unfold h_fl at 1. rewrite Hon, H0. apply bnd_ext. intros y E. destruct (Hy y E) as [P Q].
+      unfold h_fl. rewrite P, Q. reflexivity.
+  - destruct (g_implicit x H1 H2) as [A B].
+    assert (Hw : h_wh 200 x = g_wh 200 x) by (unfold h_wh; rewrite Hon; reflexivity).
+    assert (Hy : forall y, g_wh 200 x = Done y -> h_on y = false).
+    { intros y E. destruct (g_wh_hb 200 x) as (P & _). rewrite E in P. cbn in P. congruence. }
+    split; [intro b|].
+    + unfold h_wr at 1. rewrite Hon, Hw, A. apply bnd_ext. intros y E. unfold h_wr. rewrite (Hy y E). reflexivity.
+    + unfold h_fl at 1. rewrite Hon, Hw, B. apply bnd_ext. intros y E. unfold h_fl. rewrite (Hy y E). reflexivity.
+Qed.
+
+Lemma h_wh_b s x : same_b x (out_st (h_wh s x)).
+Proof.
+  unfold h_wh. destruct (h_on x).
+  - destruct (h_wrote x); [unfold same_b; auto|].
+    match goal with |- context [g_wh s ?X] => destruct (g_wh_hb s X) as (_ & _ & P & Q & R) end.
+    destruct x; unfold same_b; cbn in *; auto.
+  - destruct (g_wh_hb s x) as (_ & _ & P & Q & R). unfold same_b; auto.
+Qed.
+
+Lemma implicit_header w x :
+  (b_active x = true -> b_wrote x = false) -> (h_on x = true -> h_wrote x = false) ->
+  (gz_on x = true -> gz_fw x = false) -> (gz_on x = false -> cm x = None) ->
+  step (wop_op w) x = bnd (b_wh 200 x) (step (wop_op w)).
+Proof.
+  intros Hb H0 H1 H2. destruct (b_active x) eqn:Ba.
+  - specialize (Hb eq_refl).
+    assert (Hy : forall y, b_wh 200 x = Done y -> b_active y = true /\ b_wrote y = true).
+    { intros y E. unfold b_wh in E. rewrite Ba, Hb in E.
+      match type of E with (if ?c then _ else _) = _ => destruct c end.
+      - match type of E with h_wh 200 ?X = _ => destruct (h_wh_b 200 X) as (P & Q & _) end.
+        rewrite E in P, Q. cbn [out_st] in P, Q. unfold b_active in *. destruct x; cbn in *. rewrite P. auto.
+      - injection E as <-. unfold b_active in *. destruct x; cbn in *. auto. }
+    destruct w as [b|]; cbn [wop_op step].
+    + unfold b_wr at 1. rewrite Ba, Hb. apply bnd_ext. intros y E. destruct (Hy y E) as [P Q].
+      cbn [step]. unfold b_wr. rewrite P.
+      replace (if b_wrote y then Done y else b_wh 200 y) with (Done y) by (rewrite Q; reflexivity). reflexivity.
+    + unfold b_fl at 1. rewrite Ba, Hb. apply bnd_ext. intros y E. destruct (Hy y E) as [P Q].
+      cbn [step]. unfold b_fl. rewrite P.
+      replace (if b_wrote y then Done y else b_wh 200 y) with (Done y) by (rewrite Q; reflexivity). reflexivity.
+  - destruct (h_implicit x H0 H1 H2) as [A B].
+    assert (Bw : b_wh 200 x = h_wh 200 x) by (unfold b_wh; rewrite Ba; reflexivity).
+    assert (Hy : forall y, h_wh 200 x = Done y -> b_active y = false).
+    { intros y E. destruct (h_wh_b 200 x) as (P & _). rewrite E in P. cbn in P. unfold b_active in *. rewrite P. exact Ba. }
+    destruct w as [b|]; cbn [wop_op step].
+    + unfold b_wr at 1. rewrite Ba, Bw, A. apply bnd_ext. intros y E. cbn [step]. unfold b_wr. rewrite (Hy y E). reflexivity.
+    + unfold b_fl at 1. rewrite Ba, Bw, B. apply bnd_ext. intros y E. cbn [step]. unfold b_fl. rewrite (Hy y E). reflexivity.
+Qed.
+
+Lemma run_implicit w rest x :
+  (b_active x = true -> b_wrote x = false) -> (h_on x = true -> h_wrote x = false) ->
+  (gz_on x = true -> gz_fw x = false) -> (gz_on x = false -> cm x = None) ->
+  run_script (wop_op w :: rest) x = run_script (OWh 200 :: wop_op w :: rest) x.
+Proof.
+  intros Hb H0 H1 H2. cbn [run_script]. rewrite (implicit_header w x Hb H0 H1 H2). cbn [step].
+  destruct (b_wh 200 x); reflexivity.
+Qed.
+
+(* what the layers outside templates do only depends on what the inner handlers do on the
+   writer stack they are handed *)
+Lemma outer_ext et ep lg act hd em rule (T1 T2 : st -> hres) :
+  T1 (entry act hd) = T2 (entry act hd) ->
+  server et (log_mw et lg (gzip_mw et act (header_mw hd (errors_mw et ep em (status_mw rule T1))))) =
+  server et (log_mw et lg (gzip_mw et act (header_mw hd (errors_mw et ep em (status_mw rule T2))))).
+Proof.
+  intro H.
+  assert (E : errors_mw et ep em (status_mw rule T1) (entry act hd) = errors_mw et ep em (status_mw rule T2) (entry act hd)).
+  { unfold errors_mw, status_mw. destruct rule; [reflexivity|]. rewrite H. reflexivity. }
+  unfold server, log_mw, log_next, gzip_mw, header_mw.
+  destruct act, hd; unfold entry, enter_header, enter_gzip in E; rewrite E; reflexivity.
+Qed.
+
+Lemma serve_implicit_header et c path ae sets w ws ret err :
+  forallb set_ok sets = true ->
+  serve et c path ae (sets ++ map wop_op (w :: ws)) ret err =
+  serve et c path ae (sets ++ OWh 200 :: map wop_op (w :: ws)) ret err.
+Proof.
+  intro Hs. unfold serve, chain. apply outer_ext.
+  set (act := c_gzip c && ae). set (hd := c_header c). set (m := tmode_of c path).
+  pose proof (fresh_entry act hd) as F0.
+  assert (F1 : fresh (apply_sets sets (enter_templates m (entry act hd))))
+    by (apply fresh_apply_sets; [exact Hs|]; apply fresh_enter; exact F0).
+  assert (W1 : b_wrote (apply_sets sets (enter_templates m (entry act hd))) = false)
+    by (unfold apply_sets; destruct m, act, hd; reflexivity).
+  destruct F1 as (C1 & _ & _ & C4 & _ & _ & _ & _ & C9 & _).
+  assert (R : run_script (sets ++ map wop_op (w :: ws)) (enter_templates m (entry act hd)) =
+              run_script (sets ++ OWh 200 :: map wop_op (w :: ws)) (enter_templates m (entry act hd))).
+  { rewrite !(run_sets _ _ _ Hs). cbn [map]. apply run_implicit; intros _; assumption. }
+  unfold templates_mw, templates_on, probe.
+  destruct m; cbn [enter_templates] in R; rewrite R; reflexivity.
+Qed.
+
+Lemma implicit_response_unaltered et c path ae sets w ws ret err :
+  forallb set_ok sets = true -> status_rule c path = None -> ret < 400 ->
+  (should_buffer (tmode_of c path) (hs_fun sets []) = true -> ret < 300 -> err = false ->
+   contains (wbody (w :: ws)) TPL_OPEN = false) ->
+  let x := serve et c path ae (sets ++ map wop_op (w :: ws)) ret err in
+  cm x = Some 200 /\ sup x = 0%nat /\ view x = (false, wbody (w :: ws)).
+Proof.
+  intros Hs Hr Hret Htpl. cbv zeta. rewrite (serve_implicit_header et c path ae sets w ws ret err Hs).
+  exact (written_response_unaltered et c path ae sets 200 (w :: ws) ret err Hs Hr eq_refl eq_refl Hret Htpl).
 Qed.
